@@ -572,6 +572,9 @@ class ManifestContext:
             code, pos = item
             if isinstance(pos, int):
                 drop_seg = pos
+            elif availabilityStartTime is None:
+                # a time of day has no meaning in a static presentation
+                continue
             else:
                 tm = availabilityStartTime.replace(
                     hour=pos.hour, minute=pos.minute, second=pos.second)
